@@ -113,6 +113,11 @@ def gen_configs(tier, seed):
         # multicast fan-out around a local member whose loop option is off (join order, other members still served)
         ("gen_mcloop", base_consts(DstPorts={1}, DstKinds={"mc"}, Ops={"join", "setml", "send", "recv"}, Bufs={8},
                                    MaxSend=1, MaxSock=2, MaxCtl=3, MaxLen=5 if q else 6, Grouped=True, MaxRecv=1), None),
+        # a backlog of `capacity` datagrams, partial consumption through readable() / recv_from, then an overrun:
+        # only capacity - unread (+ the one readable() parks) more may be accepted (final queue contents compared)
+        ("gen_backlog", base_consts(Cap=2, DstPorts={1}, DstKinds={"lo"}, Ops={"send", "recv", "readable"}, Bufs={8},
+                                    PreBind={111}, MaxSend=4, MaxSock=1, MaxCtl=0, MaxLen=10 if q else 11,
+                                    Grouped=True, MaxRecv=2 if q else 3), None),
         ("gen_zero", base_consts(Cap=1, DstPorts={1}, Lens={0}, DstKinds={"host", "lo"}, Ops={"connect", "send", "recv"},
                                  Bufs={8}, MaxSend=2, MaxSock=2, MaxCtl=1, MaxLen=5, **g), None),
         # random walks of the full alphabet
